@@ -186,7 +186,7 @@ def run(ctx):
     n_samples = ctx.pick(1000, 20000)
     for idx, e in gen_samples(sub_seed, n_samples):
         c = make_case(f"sample#{idx}", "sample", e, None, sample_index=idx, srepr=sympy.srepr(e))
-        c["vkey"] = f"C17:expr:{c['s']}"
+        c["vkey"] = f"C17:expr:{c['s']}" if c["s"] is not None else f"C17:expr-raises:{sympy.srepr(e)[:300]}"
         cases.append(c)
     ctx.log(f"{len(cases)} cases built")
 
@@ -308,42 +308,10 @@ def replay(ctx, rep):
         return 1
     print("parsed as  :", rc.aexpr_show(c["parsed"]))
     rc.classify_and_build("C17", [c], PARSE_FN)
+    bad = rc.replay_values(c, rep.get("valuation"))
     if c["status"] != "lemma":
         print("status:", c["status"], c.get("bad"), c.get("reason"))
-        return 1 if c["status"] == "bad" else 0
-    val = rep.get("valuation")
-    bad = 0
-    if val:
-        val = {k: (complex(v) if isinstance(v, str) else v) for k, v in val.items()}
-        for o, p in zip(c["sides"], c["info"]["parsed_rtrees"]):
-            try:
-                a, b = rc.evaluate(o, val), rc.evaluate(p, val)
-            except Exception as e:  # pylint: disable=broad-except
-                print("evaluation failed:", e)
-                bad = 1
-                continue
-            print(f"at {val}: original = {a}   rendering = {b}   {'DIFFERENT' if not rc.close(a, b) else 'equal'}")
-            if not rc.close(a, b):
-                bad = 1
+        return 1 if (c["status"] == "bad" or bad) else 0
     res = coqrun.prove_lemmas(ctx, "c17_replay", rc.PREAMBLE, [c["lemma"]], per_file=1)
     print("lemma:", res)
     return 1 if bad or any(v != "ok" for v in res.values()) else 0
-
-
-def dev_validate(ctx, cases):
-    rc.parse_pass(ctx, "c17", PARSE_FN, cases)
-    rc.classify_and_build("C17", cases, PARSE_FN)
-    for c in cases:
-        print("==", c["key"], c["status"], c.get("bad"), c.get("reason"))
-        print("   s:", c["s"])
-        print("   e:", sympy.srepr(c["expr"])[:1500])
-        if c["status"] == "lemma":
-            print("   L:", c["lemma"].statement)
-    lem = [c for c in cases if c["status"] == "lemma"]
-    for c in lem:
-        lm = c["lemma"]
-        with open(f"/tmp/dev/{lm.name}.v", "w", encoding="utf-8") as fh:
-            fh.write(f"{rc.PREAMBLE}\nLemma {lm.name} : {lm.statement}.\nProof.\n{lm.proof}\nQed.\n")
-    res = coqrun.prove_lemmas(ctx, "c17", rc.PREAMBLE, [c["lemma"] for c in lem], per_file=1)
-    for c in lem:
-        print(c["key"], "->", res[c["lemma"].name][-700:])
